@@ -8,4 +8,5 @@ CONSTANTS
   PlusOne = TRUE
   UnsatGe = TRUE
   ImsLe = TRUE
+  ImsLocalTime = FALSE
 INVARIANT Sound
